@@ -199,7 +199,7 @@ var scenarios = []*scenario{
   (dotimes (i 4) (setq out (add out (channel-pop r))))
   out)`,
 		check: multisetFIFO([]string{"p1", "p2", "p3", "p4"}, nil), canon: sortedVal},
-	{name: "a5-unbuffered-close-range-two-consumers", group: "a", quick: 2, thorough: -1,
+	{name: "a5-unbuffered-close-range-two-consumers", group: "a", quick: 2, thorough: 4,
 		src: `(let ((c (make-channel 0)) (r (make-channel 4)) (d (make-channel 2)) (out nil))
   (run (progn (range (lambda (x) (channel-push r x)) c) (channel-push d t)))
   (run (progn (range (lambda (x) (channel-push r x)) c) (channel-push d t)))
